@@ -449,6 +449,7 @@ pub fn run_history_property<H: HB>(prop: &'static str, tier: Tier) -> Outcome {
             }
         }
     }
+    type_matrix(&mut out, prop);
     out
 }
 
@@ -520,6 +521,10 @@ pub fn run_probe_property<H: HB>(prop: &'static str, tier: Tier) -> Outcome {
                 return out;
             }
         }
+    }
+    if prop == "C16" && out.violations.is_empty() {
+        // clear / drain (consumed, partially consumed, leaked) on other element types
+        type_matrix(&mut out, prop);
     }
     if !out.violations.is_empty() || prop == "C16" && q {
         return out;
@@ -604,6 +609,14 @@ pub fn run_probe_property<H: HB>(prop: &'static str, tier: Tier) -> Outcome {
         }
     }
     out
+}
+
+/// E4: the closed search repeated on ten instantiations of the element types.
+pub fn type_matrix(out: &mut Outcome, prop: &'static str) {
+    let t0 = Instant::now();
+    let (states, transitions, viol, per) = crate::typed::run_matrix(prop);
+    out.states += states;
+    absorb_post(out, "E4 type matrix: closed search (all mutators, clone/clone_from, conversion, capacity calls, serde round trips through JSON text and Value) to the fixpoint on 10 instantiations of the element types (String/&str, zero-sized item and/or priority, Reverse, heap-owning, tuple, 128-bit, Box<str>, arrays), both kinds", transitions, viol, t0, per);
 }
 
 pub fn absorb_post(out: &mut Outcome, label: &str, cases: u64, viol: Vec<Case>, t0: Instant, extra: Value) {
@@ -1087,6 +1100,11 @@ pub fn run_c14<H: HB>(tier: Tier) -> Outcome {
         if !out.violations.is_empty() {
             return out;
         }
+    }
+    // clone / clone_from / == on other element types (heap-owning, zero-sized, ...)
+    type_matrix(&mut out, prop);
+    if !out.violations.is_empty() {
+        return out;
     }
     // larger queues built independently: different histories, different hasher instances
     // (every std RandomState instance has its own keys), different hasher types
